@@ -142,6 +142,9 @@ def basename(rng):
         return stem + '_'
     if k < 0.6:
         return stem + rng.choice(['x', 'y', ':', ',', 'x.', 'v2_', 'v2.', '.v003.', '_1-5_', '.x', '-'])
+    if k < 0.63:
+        # blanks before the range (a blank cannot be part of a range, so these stay unambiguous)
+        return stem + rng.choice([' 2 ', ' - ', '2 - ', ' ', '_v2 ', ' -'])
     if k < 0.65:
         return ''
     if k < 0.75:
